@@ -10,10 +10,13 @@ RULE = ('states = (relation, input): for every (wrapper, constituent) relation o
         'constituent reached by E2, all its single-edit neighbours (same-class substitution, deletion, transposition), each in '
         'the spellings {as is, CC+n, cc+n, "CC "+n, CC+CC+n} and - for the EU relation - under the prefix of every other code; '
         'oracle: dispatch = equivalence on the same input and prefixed result, union = equivalence with "some constituent '
-        'accepts", superset / wrapping = implications, guessers list exactly the accepting constituents. '
+        'accepts", superset / wrapping = implications, delegation (sk.dph>sk.rc, cz.dic>cz.rc, ro.cf>cnp/cui, bg.vat>egn/pnf, '
+        'id.npwp>nik, it.codicefiscale>iva, fi.ytunnus>alv) = implication on the inputs the wrapper hands over, equivalence '
+        'where it hands them over unconditionally, guessers list exactly the accepting constituents. '
         'non-trivial = inputs accepted by the wrapper or by a constituent.')
 ASSUMPTIONS = ['the 29 EU VAT codes and the module each one names are written out in this file (not read from MEMBER_STATES)',
-               'nothing is demanded of vatin outside what eu.vat accepts']
+               'nothing is demanded of vatin outside what eu.vat accepts',
+               'the dispatch conditions of the delegating validators (length / first digit) are restated in DELEGATES']
 
 # EU VAT code -> the national module that validates it (29 codes: 27 member states + XI + EL alias)
 EU = {
@@ -30,6 +33,22 @@ UNIONS = {
 }
 GUESSERS = {'us.tin': ('guess_type', 'list'), 'be.ssn': ('guess_type', 'first'), 'th.tin': ('tin_type', 'first')}
 SUPERSETS = {'es.nif': ('es.dni', 'es.nie', 'es.cif')}
+# wrapper -> rows (constituent, projection of an input to what the constituent is asked or None when the wrapper
+# does not delegate that input, exact): constituent accepts => wrapper accepts with the same result; with exact
+# also wrapper accepts => constituent accepts.  The projections restate the dispatch conditions of the wrapper.
+def _dig(x, lens):
+    return x if x.isascii() and x.isdigit() and len(x) in lens else None
+
+
+DELEGATES = {
+    'sk.dph': [('sk.rc', lambda x: _dig(x, (10,)), False)],
+    'cz.dic': [('cz.rc', lambda x: None if _dig(x, (9, 10)) is None or (len(x) == 9 and x[0] == '6') else x, True)],
+    'ro.cf': [('ro.cnp', lambda x: _dig(x, (13,)), True), ('ro.cui', lambda x: _dig(x, tuple(range(2, 11))), True)],
+    'bg.vat': [('bg.egn', lambda x: _dig(x, (10,)), False), ('bg.pnf', lambda x: _dig(x, (10,)), False)],
+    'id.npwp': [('id.nik', lambda x: None if _dig(x, (16,)) is None or x[0] == '0' else x, True)],
+    'it.codicefiscale': [('it.iva', lambda x: _dig(x, (11,)), True)],
+    'fi.ytunnus': [('fi.alv', lambda x: _dig(x, (8,)), True)],
+}
 NATIONAL_IBAN = ('be', 'es', 'no', 'me')
 # wrapper -> (wrapped, projection of the wrapper's result that the wrapped validator must accept,
 #             spelling of a valid wrapped number that the wrapper must accept)
@@ -52,7 +71,7 @@ def mod(name):
 def plan(ctx):
     t = ctx['tier']
     return [('eu', cc, t) for cc in sorted(EU)] + [('union', w, t) for w in sorted(UNIONS)] + \
-           [('superset', w, t) for w in sorted(SUPERSETS)] + [('iban', cc, t) for cc in NATIONAL_IBAN + ('generic',)] + \
+           [('superset', w, t) for w in sorted(SUPERSETS)] + [('delegate', w, t) for w in sorted(DELEGATES)] + [('iban', cc, t) for cc in NATIONAL_IBAN + ('generic',)] + \
            [('wrap', w, t) for w in sorted(WRAPS)] + [('eu-cross', 'all', t)]
 
 
@@ -207,6 +226,33 @@ def work(item):
                     wo = outcome(w.validate, x)
                     if not acc(wo) or wo[1] != co[1]:
                         viol('superset-rejects', key, x, '%s accepts %r (%r) but %s gives %r' % (cn, x, co[1], key, wo[1:2]), cn + ':' + dev)
+    elif kind == 'delegate':
+        w = mod(key)
+        for cn, proj, exact in DELEGATES[key]:
+            cm = mod(cn)
+            vals, t0 = valid_numbers(cn, tier, cap=400 if quick else 5000)
+            tr += t0
+            # numbers the wrapper accepts are inputs too (the exact direction needs them)
+            wvals, t1 = valid_numbers(key, tier, cap=200 if quick else 3000)
+            tr += t1
+            seen = set()
+            for v in list(vals) + list(wvals):
+                for x, dev in [(v, 'valid')] + [(y, 'edit') for y in neighbours(v)[:160 if quick else 100000]]:
+                    if x in seen:
+                        continue
+                    seen.add(x)
+                    p_ = proj(x)
+                    if p_ is None:
+                        continue
+                    n += 1
+                    co = outcome(cm.validate, p_)
+                    wo = outcome(w.validate, x)
+                    if acc(co):
+                        nt += 1
+                        if not acc(wo) or wo[1] != co[1]:
+                            viol('superset-rejects', key, x, '%s accepts %r (%r) but %s gives %r' % (cn, p_, co[1], key, wo[1:3]), cn + ':' + dev)
+                    elif exact and acc(wo):
+                        viol('wrapper-accepts-more', key, x, '%s accepts %r (%r) but %s gives %r' % (key, x, wo[1], cn, co[1:3]), cn + ':' + dev)
     elif kind == 'iban':
         iban = mod('iban')
         if key == 'generic':
